@@ -582,8 +582,10 @@ class SymInt:
     def to_bytes(s, length, byteorder="big", signed=False):
         assert not signed
         n = _int(length)
-        get = _int_to_bytes_fn(s.e, n, byteorder)
-        return SymBytes(n, get)
+        if n > 0:
+            bs = [_norm_item(b) for b in decompose(s.e, n)]
+            return SymBytes.from_items(bs if byteorder == "big" else bs[::-1])
+        return SymBytes.from_items([])
 
     def bit_length(s):
         raise Unsupported("SymInt.bit_length")
